@@ -227,3 +227,21 @@ end
 end trace
 
 end PdfVerif.Crypt
+
+namespace PdfVerif.Crypt
+open PdfVerif PdfVerif.Gen.Crypt PdfVerif.CryptWriter
+
+theorem iter_succ' {α : Type} (f : α → α) (n : Nat) (x : α) : iter f (n + 1) x = f (iter f n x) := by
+  induction n generalizing x with
+  | zero => rfl
+  | succ n ih => rw [iter, ih (f x)]; rfl
+
+/-- Length of the file key of Algorithm 2: `min (Length/8) 16` for revisions >= 3 - in particular
+    16 bytes for every V4 (AESV2) document, where pdfminer forces Length = 128. -/
+theorem alg2Key_length (P : Prims) (hmd5 : ∀ x, (P.md5 x).length = 16) (c : Cfg) (pu o : Bytes)
+    (hr : c.r ≥ 3) : (alg2Key P c pu o).length = min (keyLen c) 16 := by
+  unfold alg2Key
+  simp only [hr, if_true]
+  rw [show (50 : Nat) = 49 + 1 from rfl, iter_succ', List.length_take, hmd5]
+
+end PdfVerif.Crypt
